@@ -88,12 +88,13 @@ def modelParse (c : Config) (st : PState) (buf : Bytes) (wExport wCommon : Bool)
      exports := if wExport then pkts.map (exportPacketM c) else [],
      common := if wCommon then pkts.map (toCommon c) else [] }, st')
 
-def diffParts (a b : ParseAns) : List String :=
+def diffParts (c : Config) (a b : ParseAns) : List String :=
   (if a.outcome != b.outcome then ["outcome"] else []) ++
   (if a.pkts != b.pkts then ["pkts"] else []) ++
   (if a.state != b.state then ["state"] else []) ++
   (if a.exports != b.exports then ["exports"] else []) ++
-  (if a.common != b.common then ["common"] else [])
+  -- `a` is the implementation's answer, `b` the model's: on V9 packets with a duplicate projected key the choice is open
+  (if !Preds.commonCorr c b.pkts a.common b.common then ["common"] else [])
 
 def pktNontrivial : Packet → Bool
   | .v5 _ rs => !rs.isEmpty
@@ -157,7 +158,7 @@ def handleParse (s : Sess) (i : Nat) (op impl : Json) (line2 : Option Json := no
           ("decode_error", e), ("model_outcome", m.outcome), ("impl_outcome", implOutcome), ("returned", true),
           ("oracle", Json.mkObj []), ("len", buf.length)])
       | .ok a =>
-        let d := diffParts a m
+        let d := diffParts c a m
         let before := s.implSt p
         let orc := Preds.parseOracles c before buf a sv wE wC
         let morc := Preds.parseOracles c st buf m sv wE wC
@@ -352,7 +353,8 @@ def handleFlat (s : Sess) (i : Nat) (op impl : Json) : Sess × Json :=
     | .ok fl =>
       let (pi, pm) := (s.flats.lookup p).getD ([], [])
       ({ s' with flats := upd s'.flats p (pi ++ fl, pm ++ mflat) },
-        Json.mkObj [("i", i), ("kind", "flat"), ("corr", fl == mflat), ("diff", jsonOfList (if fl == mflat then [] else ["common"])),
+        let fc := fl == mflat || Preds.flatCorr c (outcomePkts out) fl
+        Json.mkObj [("i", i), ("kind", "flat"), ("corr", fc), ("diff", jsonOfList (if fc then [] else ["common"])),
           ("oracle", Json.mkObj []), ("returned", true)])
 
 /-- C08, second half: a V5/V7 STRUCTURE (count = number of records) exported by the real `to_be_bytes` and parsed
